@@ -1,4 +1,6 @@
+pub mod c02;
 pub mod c03;
+pub mod c04;
 pub mod c05;
 
 #[derive(Clone, Copy, PartialEq, Eq, Debug)]
@@ -31,7 +33,9 @@ impl Tier {
 
 pub fn run(prop: &str, tier: Tier, seed: u64, out: &str) -> bool {
     match prop {
+        "C02" => c02::run(tier, seed, out),
         "C03" => c03::run(tier, seed, out),
+        "C04" => c04::run(tier, seed, out),
         "C05" => c05::run(tier, seed, out),
         _ => return false,
     }
